@@ -553,3 +553,46 @@ M("c07-any-minus-x", "C07", [(CLS, "        if isinstance(pre1, Any):\n         
 M("c07-global-subtraction-allowed", "C07", [(CLS, "        if isinstance(pre1, (AnyWordChar, AnyButWordChar)) and pre1._is_global():\n            raise _ex.GlobalWordCharSubtractionException(pre1)\n", "")], rule="R-ALG-GUARD")
 M("c07-wordchar-invert-loses-global", "C07", [(CLS, "        return AnyButWordChar(is_global=self._is_global())", "        return AnyButWordChar()")], rule="R-ALG-GUARD")
 M("c07-benign-slice-removeprefix", "C07", [(CLS, "self.__verbose[len('[' + rs):-1]", "self.__verbose.removeprefix('[' + rs).removesuffix(']')")], expect="silent")
+
+# ---------------------------------------------------------------- C08
+M("c08-capture-count-dropped", "C08", [(PRE, "f'(?P<{name}>', pattern, count=1)", "f'(?P<{name}>', pattern)")], rule="R-GROUP-CASE")
+M("c08-group-count-dropped", "C08", [(PRE, """                    f"(?{'i' if is_case_insensitive else ''}:", str(self), count=1)""", """                    f"(?{'i' if is_case_insensitive else ''}:", str(self))""")], rule="R-GROUP-CASE")
+M("c08-noncap-to-cap-wrong-prefix", "C08", [(PRE, "pattern = self.__pattern.replace('?:', '', 1)", "pattern = self.__pattern.replace('?', '', 1)")], rule="R-GROUP-CASE")
+M("c08-flag-reset-all", "C08", [(PRE, """                    self.__pattern,
+                    count=1)
+            elif self.__pattern.startswith('(?'):""", """                    self.__pattern)
+            elif self.__pattern.startswith('(?'):""")], rule="R-GROUP-CASE")
+M("c08-uncapture-all-parens", "C08", [(PRE, """                pattern = self.__pattern.replace('(',
+                    f"(?{'i' if is_case_insensitive else ''}:", 1)""", """                pattern = self.__pattern.replace('(',
+                    f"(?{'i' if is_case_insensitive else ''}:")""")], rule="R-GROUP-CASE")
+M("c08-lookaround-as-group-again", "C08", [(PRE, "            elif self.__pattern.startswith('(?') and not self.__pattern.startswith('(?P<'):", "            elif _re.match('\\(\\?[i].+', self.__pattern):")], rule="R-GROUP-CASE")
+M("c08-named-capture-keeps-old-name", "C08", [(PRE, """                if pattern.startswith('(?P'):
+                    pattern =""", """                if pattern.startswith('(?P<x'):
+                    pattern =""")], rule="R-GROUP-CASE")
+M("c08-capture-nongroup-no-name", "C08", [(PRE, """            pattern = f"({f'?P<{name}>' if name != None else ''}{self})\"""", """            pattern = f"({self})\"""")], rule="R-GROUP-CASE")
+M("c08-name-validator-admits-dash", "C08", [(PRE, '''if _re.fullmatch("[A-Za-z_]\\w*", name) is None or not name.isidentifier():''', '''if _re.fullmatch("[A-Za-z_][\\w-]*", name) is None:''')], rule="R-NAME")
+M("c08-name-check-after-empty", "C08", [(PRE, """        if name is not None:
+            if not isinstance(name, str):
+                message = "Provided argument \\"name\\" is not a string."
+                raise _ex.InvalidArgumentTypeException(message)
+            if _re.fullmatch("[A-Za-z_]\\w*", name) is None or not name.isidentifier():
+                raise _ex.InvalidCapturingGroupNameException(name)
+        if self.__type == _Type.Empty:
+            return self""", """        if self.__type == _Type.Empty:
+            return self
+        if name is not None:
+            if not isinstance(name, str):
+                message = "Provided argument \\"name\\" is not a string."
+                raise _ex.InvalidArgumentTypeException(message)
+            if _re.fullmatch("[A-Za-z_]\\w*", name) is None or not name.isidentifier():
+                raise _ex.InvalidCapturingGroupNameException(name)""")], rule="R-NAME")
+M("c08-backref-accepts-bool", "C08", [(GRP, """            if isinstance(ref, bool):
+                message = "Parameter \\"ref\\" is neither an integer nor a string."
+                raise _ex.InvalidArgumentTypeException(message)
+""", "")], rule="R-BACKREF")
+M("c08-backref-range-100", "C08", [(GRP, "if ref < 1 or ref > 99:", "if ref < 1 or ref > 100:")], rule="R-BACKREF")
+M("c08-backref-template", "C08", [(GRP, 'transform = lambda s : f"(?P={s})"', 'transform = lambda s : f"(?P<{s}>)"')], rule="R-BACKREF")
+M("c08-conditional-name-unchecked", "C08", [(GRP, """        if _re.fullmatch("[A-Za-z_][\\w]*", name) is None or not name.isidentifier():
+            raise _ex.InvalidCapturingGroupNameException(name)
+""", "")], rule="R-BACKREF")
+M("c08-benign-slicing", "C08", [(PRE, "pattern = self.__pattern.replace('?:', '', 1)", "pattern = '(' + self.__pattern[3:]")], expect="silent")
